@@ -69,16 +69,23 @@ def _wrap_func(rng, funcname, *args, size=None, chunks="auto", extra_chunks=(), 
         args = tuple(_broadcast_array_arg(arg, size, target_chunks) for arg in args)
         kwargs = {k: _broadcast_array_arg(v, size, target_chunks) for k, v in kwargs.items()}
 
+    # The node keeps a snapshot of the generator (its seeds are a pure function
+    # of that snapshot, however often the optimizer re-creates the node); the
+    # caller's generator is advanced once, here.
+    from ._expr import Random, _advance_rng, _snapshot_rng
+
+    user_rng, rng = rng, _snapshot_rng(rng)
+
     # Dispatch to specific subclass if available
     if funcname == "normal":
         loc = kwargs.pop("loc", args[0] if len(args) > 0 else 0.0)
         scale = kwargs.pop("scale", args[1] if len(args) > 1 else 1.0)
-        return new_collection(RandomNormal(rng, size, chunks, extra_chunks, loc, scale))
+        expr = RandomNormal(rng, size, chunks, extra_chunks, loc, scale)
     elif funcname == "poisson":
         lam = args[0] if len(args) > 0 else kwargs.pop("lam", 1.0)
-        return new_collection(RandomPoisson(rng, size, chunks, extra_chunks, lam))
-
-    # Fallback: use generic Random with args/kwargs tuples
-    from ._expr import Random
-
-    return new_collection(Random(rng, funcname, size, chunks, extra_chunks, args, kwargs))
+        expr = RandomPoisson(rng, size, chunks, extra_chunks, lam)
+    else:
+        # Fallback: use generic Random with args/kwargs tuples
+        expr = Random(rng, funcname, size, chunks, extra_chunks, args, kwargs)
+    _advance_rng(user_rng, len(expr._info[2]))
+    return new_collection(expr)
